@@ -97,7 +97,10 @@ func (s *SourceSplitter) Start(ckpt *snapshotpb.SourceCheckpoint) error {
 	if err != nil {
 		return fmt.Errorf("kinesis.SourceSplitter failed to discover shards: %w", err)
 	}
-	pendingShards = append(pendingShards, s.splitTracker.AvailableSplits()...)
+
+	// The checkpointed shards were loaded as unassigned splits, so the available
+	// splits already include them next to the newly discovered ones.
+	pendingShards = s.splitTracker.AvailableSplits()
 
 	// Do the initial split assignment
 	s.assignShards(ctx, pendingShards)
